@@ -113,7 +113,7 @@ def parse_vspec(path):
                 else:
                     raise SpecError(f'{path}:{i+1}: bad token {rest[k]}')
             u.parts.append(('item', it)); cur_item = it; i += 1
-        elif d in ('@sig', '@loop', '@loopend', '@before', '@after', '@closure', '@ret', '@tail', '@drop', '@split_or_arm'):
+        elif d in ('@sig', '@loop', '@loopend', '@before', '@after', '@closure', '@ret', '@tail', '@head', '@drop', '@split_or_arm'):
             if cur_item is None: raise SpecError(f'{path}:{i+1}: {d} outside @item')
             a = Ann(kind=d[1:], line=i + 1)
             rest = ln[len(d):].strip()
@@ -265,7 +265,7 @@ class Text:
         return ''.join(out)
 
 
-def strip_common(tx: Text, keep_derive=True):
+def strip_common(tx: Text, keep_derive=True, extra_keep=(), drop_derive=()):
     """R1/R2 on the item text."""
     ct = tx.ct
     i = 0
@@ -287,8 +287,8 @@ def strip_common(tx: Text, keep_derive=True):
             body = tx.src[ct[j].end:ct[close].start].strip()
             if body.startswith('derive') and keep_derive:
                 ds = [d.strip() for d in body[body.index('(') + 1:body.rindex(')')].split(',')]
-                kept = [d for d in ds if d in KEEP_DERIVES]
-                dropped = [d for d in ds if d and d not in KEEP_DERIVES]
+                kept = [d for d in ds if (d in KEEP_DERIVES or d in extra_keep) and d not in drop_derive]
+                dropped = [d for d in ds if d and ((d not in KEEP_DERIVES and d not in extra_keep) or d in drop_derive)]
                 repl = f"#[derive({', '.join(kept)})]" if kept else ''
                 tx.edits.append((t.start, ct[close].end, repl))
                 if dropped:
@@ -426,6 +426,8 @@ def label_lines(text, labels, base_line, region):
     cur = None
     for off, ln in enumerate(text.split('\n')):
         m = LABEL_RE.search(ln)
+        if m and '//' in ln[:m.start()]:
+            m = None     # a label mentioned inside a comment is documentation, not an obligation
         if m:
             cur = m.group(1)
             ln = ln[:m.start()] + '/*' + cur + '*/' + ln[m.end():]
@@ -484,7 +486,7 @@ class Gen:
             return self.emit_lift(it)
         item, imp, src = find_item(it.file, it.kind, it.sel)
         tx = Text(src, item.start, item.end, it.file)
-        strip_common(tx)
+        strip_common(tx, extra_keep=tuple(it.opts.get('keep', '').split(',')), drop_derive=tuple(it.opts.get('noderive', '').split(',')))
         apply_renames(tx, u.renames)
         l0, l1 = rl.line_of(src, item.decl_start), rl.line_of(src, item.end)
         sha = hashlib.sha256(src[item.start:item.end].encode()).hexdigest()[:16]
@@ -527,6 +529,7 @@ class Gen:
             fkey = it.as_name
         region = f'{u.name}.{fkey}'
         pending_inserts = []   # (byte_pos, text, tag)
+        split_anns = []
         for a in it.anns:
             if a.kind == 'ret':
                 if fp['arrow'] is None:
@@ -534,7 +537,8 @@ class Gen:
                 s = ct[fp['arrow'] + 2].start
                 e_idx = (fp['where'] if fp['where'] is not None else fp['bopen']) - 1
                 e = ct[e_idx].end
-                tx.edit(s, e, f'({a.arg}: {src[s:e]})', 'R3', 'result named')
+                pending_inserts.append((s, f'({a.arg}: ', 'ret'))
+                pending_inserts.append((e, ')', 'ret'))
             elif a.kind == 'sig':
                 pos = ct[fp['bopen']].start
                 pending_inserts.append((pos, '\n' + a.text.rstrip() + '\n', 'sig'))
@@ -594,6 +598,8 @@ class Gen:
                 pending_inserts.append((pos, '\n' + a.text.rstrip() + '\n', a.kind))
             elif a.kind == 'tail':
                 pending_inserts.append((ct[fp['bclose']].start, '\n' + a.text.rstrip() + '\n', 'tail'))
+            elif a.kind == 'head':
+                pending_inserts.append((ct[fp['bopen']].end, '\n' + a.text.rstrip() + '\n', 'head'))
             elif a.kind == 'closure':
                 body_s, body_e = ct[fp['bopen']].end, ct[fp['bclose']].start
                 body = src[body_s:body_e]
@@ -609,7 +615,7 @@ class Gen:
             elif a.kind == 'drop':
                 self.apply_drop(tx, a, fp['bopen'], fp['bclose'])
             elif a.kind == 'split_or_arm':
-                self.apply_split_or_arm(tx, a, region)
+                split_anns.append(a)
         if self.inject_false == region:
             pending_inserts.append((ct[fp['bclose']].start, '\n    proof { assert(false); } // vacuity self-test\n', 'selftest'))
         if 'async' in it.opts or any(t.kind == 'id' and t.text == 'async' for t in ct[:fp['fn']]):
@@ -626,6 +632,14 @@ class Gen:
             tx.edits.append((pos, pos, MARK % n_))
             tx.log.append({'rule': 'R3', 'at': f'{it.file}:{rl.line_of(src, pos)}', 'text': '', 'note': f'annotation inserted ({tag})'})
         rendered = tx.render().strip('\n') + '\n'
+        # R9 runs on the text with all other edits applied, so annotations inside the arm are duplicated with it
+        for a in split_anns:
+            t2 = Text(rendered, 0, len(rendered), it.file)
+            self.apply_split_or_arm(t2, a, region)
+            rendered = t2.render()
+            for lg in t2.log:
+                lg['at'] = f'{it.file}:{l0}-{l1}'
+            tx.log += t2.log
         self.emit(header)
         if imp is not None:
             self.emit(f'impl {imp_header} {{\n')
@@ -828,6 +842,8 @@ class Gen:
                 inserts.append((pos, '\n' + a.text.rstrip() + '\n'))
             elif a.kind == 'tail':
                 inserts.append((sct[fp['bclose']].start, '\n' + a.text.rstrip() + '\n'))
+            elif a.kind == 'head':
+                inserts.append((sct[fp['bopen']].end, '\n' + a.text.rstrip() + '\n'))
             elif a.kind == 'closure':
                 bs, be = sct[fp['bopen']].end, sct[fp['bclose']].start
                 b = synthetic[bs:be]
